@@ -76,3 +76,70 @@ contract(
     name="Residue.rename_atom",
     native=False,
 )
+
+
+# ---------------------------------------------------------------- print_biomolecule_atoms by induction over the atom list
+# The loop is cut at an invariant with a symbolic index over a list of atoms with symbolic chain ids; the text list is
+# havocked to 0 or 1 element plus a symbolic count `_base` of earlier elements (the loop only appends):
+#   every atom consumed so far is numbered by its position,  the chain being written is the previous atom's chain,
+#   lines so far = atoms consumed + one TER per chain change among them.
+def SATOM(i):
+    return Named(f"q{i}", Obj("pdb2pqr.structures:Atom", chain_id=Str, serial=Int, name=Const(f"X{i}")))
+
+
+def numbered(atomlist, i):
+    ok = True
+    k = 0
+    for a in atomlist:
+        if k < i:
+            ok = ok and a.serial == k + 1
+        k = k + 1
+    return ok
+
+
+def changes(atomlist, i):
+    """Chain changes among the first i atoms."""
+    n = 0
+    k = 0
+    prev = None
+    for a in atomlist:
+        if k < i and k >= 1 and a.chain_id != prev.chain_id:
+            n = n + 1
+        prev = a
+        k = k + 1
+    return n
+
+
+def current_ok(cur, atomlist, i):
+    ok = True
+    k = 0
+    for a in atomlist:
+        if k == i - 1:
+            ok = ok and cur == a.chain_id
+        k = k + 1
+    return ok
+
+
+contract(
+    "pdb2pqr.io:print_biomolecule_atoms", ["C03", "C09"],
+    params={"atomlist": Items(SATOM(0), SATOM(1), SATOM(2), SATOM(3)), "chainflag": Bool, "pdbfile": Enum(False, True)},
+    requires=[],
+    ensures=["result[len(result) - 1] == 'TER\\nEND'", "numbered(atomlist, 4)"],
+    loops={"pdb2pqr.io:print_biomolecule_atoms#0": Loop(
+        shape="enumerate(atomlist)",
+        ghost={"_base": "0"},
+        invariants=[
+            "numbered(atomlist, _i)",
+            "iff(currentchain_id is None, _i == 0)",
+            "implies(_i > 0, current_ok(currentchain_id, atomlist, _i))",
+            "_base >= 0 and _base + len(text) == _i + changes(atomlist, _i)",
+        ],
+        modifies={"_base": Int, "text": OneOf(Items(), Items(Str)), "currentchain_id": Opt(Str),
+                  "q0.serial": Int, "q1.serial": Int, "q2.serial": Int, "q3.serial": Int,
+                  "iatom": "rebound", "atom": "rebound"},
+    )},
+    trace=TRACE,
+    modifies=["q0.serial", "q1.serial", "q2.serial", "q3.serial"],
+    name="print_biomolecule_atoms.induction",
+    native=False,
+)
